@@ -26,13 +26,16 @@ EXPLANATION = (
     "outcome of the post-loop code for every reachable end state (accept / SyntaxError / internal error); explicit "
     "raise sites reachable from Rule.create and FllImporter.from_string are enumerated through the call graph and "
     "must be SyntaxError / ValueError / LookupError; stack pops, [-1] and constant subscripts of split() lists are "
-    "guarded; each load unloads first and commits last"
+    "guarded; each load unloads first and commits last; the infix->postfix converter and the postfix->tree parser are "
+    "interpreted abstractly (sa/absexec.py) as pushdown machines over token classes and compared with the reference "
+    "shunting-yard / tree-building machines on every configuration up to a depth bound: unbalanced input is rejected with "
+    "SyntaxError and no configuration leads to an internal error (PD, PD2); every tokeniser separates at any whitespace (X8)"
 )
 ASSUMPTIONS = [
     "token classes are disjoint (a token is not at once a keyword, a variable name, a hedge name and a term name)",
     "resource exhaustion (recursion depth of very long antecedents) is not decided",
 ]
-FLOORS = {"PD": 4, "PD2": 4, "F1": 3, "F-end": 3, "X2": 30, "X3": 10, "X4": 6, "O9": 4}
+FLOORS = {"X8": 6, "PD": 4, "PD2": 4, "F1": 3, "F-end": 3, "X2": 30, "X3": 10, "X4": 6, "O9": 4}
 
 ALLOWED = {"SyntaxError", "ValueError", "KeyError", "LookupError"}
 
@@ -106,6 +109,24 @@ def make_atom_classifier(r: Resolver, stack_var: str | None) -> Callable[[ast.AS
     return classify
 
 
+def split_call(t: Term) -> Term | None:
+    """The `<text>.split(...)` call an iterable is made from, seen through filter(None, .), list(.), iter(.), strip()-chains and
+    `[x for x in . if x]`-style filters; None when the iterable is not a tokenised text."""
+    while True:
+        if t[0] == "call" and t[1][0] == "attr" and t[1][2] == "split":
+            return t
+        if t[0] == "call" and t[1][0] == "global" and t[1][1] in ("filter",) and len(t[2]) == 2:
+            t = t[2][1]
+        elif t[0] == "call" and t[1][0] == "global" and t[1][1] in ("list", "tuple", "iter", "reversed") and t[2]:
+            t = t[2][0]
+        elif t[0] == "filtered":
+            t = t[1]
+        elif t[0] == "call" and t[1][0] == "global" and t[1][1] in ("re.split",) and len(t[2]) == 2:
+            return t
+        else:
+            return None
+
+
 def token_loop(r: Resolver):
     cfg = r.cfg
     for h in cfg.loop_heads():
@@ -114,9 +135,57 @@ def token_loop(r: Resolver):
         it = [q for q, _ in h.pred if q.kind == "iter"]
         if it:
             t = r.term(h.ast.iter, it[0])  # type: ignore[union-attr]
-            if t[0] == "call" and t[1][0] == "attr" and t[1][2] == "split":
+            if split_call(t) is not None:
                 return h
     raise AnalysisError(f"{r.fn.qualname}: token loop (for token in <text>.split()) not found")
+
+
+def tokenisers(check: Check, rule: str = "X8") -> None:
+    """X8: every parser of rule text separates tokens at *any* run of whitespace (`str.split()` without a separator, or a `\\s+`
+    regular expression): the rule grammar and the readiness check (which looks for ` and ` / ` or ` in the normalised text) are
+    stated for whitespace-separated tokens, so a tokeniser that splits on the space character only reads `a\tand\tb` as one token in
+    one place and as three in another."""
+    p = check.program
+    for qual in ("Rule.parse", "Antecedent.load", "Consequent.load", "Function.infix_to_postfix", "Function.parse"):
+        fn = p.func(qual)
+        check.analysed(fn)
+        r = Resolver(p, fn)
+        h = None
+        try:
+            h = token_loop(r)
+        except AnalysisError:
+            if qual == "Antecedent.load":
+                continue  # reads the postfix produced by infix_to_postfix through a helper: covered there
+            raise
+        it = [q for q, _ in h.pred if q.kind == "iter"][0]
+        sc = split_call(r.term(h.ast.iter, it))  # type: ignore[union-attr]
+        assert sc is not None
+        if sc[1][0] == "attr":
+            args = [a for a in sc[2] if a != ("const", None)] + [v for k, v in sc[3] if k == "sep" and v != ("const", None)]
+            ok = not args
+            why = f"`{show(sc)[:60]}` splits at the separator {show(args[0]) if args else ''} only"
+        else:
+            pat = sc[2][0]
+            ok = pat[0] == "const" and pat[1] in (r"\s+", r"\s")
+            why = f"`{show(sc)[:60]}` is not a whitespace pattern"
+        check.require(ok, rule, f"{qual}/tokeniser", "tokens are separated at any run of whitespace" if ok else
+                      why + ": tabs / newlines between tokens are kept inside tokens here but separate tokens elsewhere "
+                      "(readiness looks for ` and ` / ` or ` in the space-normalised antecedent text)", loc(fn, h))
+    # the texts handed on are the tokens joined by single spaces
+    fn = p.func("Rule.parse")
+    r = Resolver(p, fn)
+    joins = []
+    for n in r.cfg.stmt_nodes():
+        for tg in r.cfg.stores_at(n):
+            if isinstance(tg, ast.Attribute) and tg.attr == "text" and isinstance(tg.value, ast.Attribute) and tg.value.attr in ("antecedent", "consequent") \
+                    and getattr(n.ast, "value", None) is not None:
+                joins.append((n, tg.value.attr, r.term(n.ast.value, n)))  # type: ignore[union-attr]
+    for n, part, t in joins:
+        ok = t[0] == "call" and t[1][0] == "attr" and t[1][2] == "join" and t[1][1] == ("const", " ")
+        check.require(ok, rule, f"Rule.parse/{part}-text", f"the {part} text is its tokens joined by single spaces" if ok else
+                      f"the {part} text is `{show(t)[:70]}`, not the tokens joined by single spaces", loc(fn, n))
+    if len(joins) < 2:
+        raise AnalysisError("Rule.parse: assignments of the antecedent / consequent texts not found")
 
 
 def state_variables(fn, consts: dict[str, int]) -> set[str]:
@@ -760,6 +829,7 @@ def run(check: Check) -> None:
     shunting.stack_safety(check, "Antecedent.load")
     shunting.parse_arity_guard(check)
     shunting.rejection_checks(check)
+    tokenisers(check)
     pushdown.infix_to_postfix(check)
     pushdown.parse_postfix(check)
     constant_subscripts(check)
